@@ -112,6 +112,7 @@ type recCache struct {
 	onLoad       func(seq int)
 	lastFwdErr   error
 	lastFullRows int // rows of the batch that was last refused with ErrKvCacheFull
+	maxRows      int // rows of the largest batch the cache has been given so far
 }
 
 func (c *recCache) seq(i int) *refSeq {
@@ -152,6 +153,9 @@ func (c *recCache) StartForward(ctx ml.Context, batch input.Batch, reserve bool)
 				}
 			}
 		}
+	}
+	if !reserve && len(batch.Positions) > c.maxRows {
+		c.maxRows = len(batch.Positions)
 	}
 	c.f.inForward = true
 	before := c.f.defragRuns
@@ -551,7 +555,7 @@ type imgPayload struct {
 }
 
 // imgPadToken is the placeholder PostTokenize puts behind an image, once per row it occupies.
-const imgPadToken = 1
+const imgPadToken = 1 << 20 // outside every vocabulary: an input is a placeholder iff it carries this token
 
 // visionModel is the scripted model of a vision run: the same model, plus model.MultimodalProcessor.
 type visionModel struct{ *scriptModel }
